@@ -391,6 +391,9 @@ def reshape(tens, shape, eps=1e-16, rmax=sys.maxsize):
                         core = cores[idx]
                 idx_shape += 1
                 if idx_shape == len(shape):
+                    # the modes that were not consumed are all singletons: keep their scalar factors
+                    for c in [core] + cores[idx+1:]:
+                        cores_new[-1] = tn.einsum('ijkl,lm->ijkm', cores_new[-1], c[:, 0, 0, :])
                     break
             else:
                 idx += 1
@@ -434,6 +437,9 @@ def reshape(tens, shape, eps=1e-16, rmax=sys.maxsize):
                         core = cores[idx]
                 idx_shape += 1
                 if idx_shape == len(shape):
+                    # the modes that were not consumed are all singletons: keep their scalar factors
+                    for c in [core] + cores[idx+1:]:
+                        cores_new[-1] = tn.einsum('ijk,kl->ijl', cores_new[-1], c[:, 0, :])
                     break
             else:
                 idx += 1
